@@ -864,7 +864,6 @@ class RegionObjectsState:
             if fut_key[0] == local_id:
                 for fut in futs:
                     fut.cancel()
-                break
 
 
 class LocationType(enum.IntEnum):
